@@ -43,19 +43,26 @@ def observe(cfg, scitype, origin=0, fhvariant=0):
                             index=pd.RangeIndex(lo + origin, hi + origin))
     try:
         fharg = [fh, np.array(fh), ForecastingHorizon(fh)][fhvariant % 3]
+        Reg, sci = stubs.RecordingRegressor, scitype
+        if fhvariant % 4 == 2:        # the scitype is left to be inferred from the regressor's class
+            sci = "infer"
+            if scitype == "time-series-regressor":
+                Reg = stubs.make_ts_recording_regressor()
         if cfg.get("pre"):
             # the same object was fitted before with another window length (and then re-parameterised)
-            f = make_reduction(stubs.RecordingRegressor(tag=tag, frac=0.25), strategy=cfg["strategy"],
-                               window_length=cfg["pre"], scitype=scitype)
+            f = make_reduction(Reg(tag=tag, frac=0.25), strategy=cfg["strategy"],
+                               window_length=cfg["pre"], scitype=sci)
             try:
-                f.fit(yser(0, n), X=xfr(0, n), fh=fharg)
+                # (the earlier fit came with an exogenous column even when the fit that counts has none)
+                xpre = xfr(0, n) if nx else pd.DataFrame({"x9": [9000.0 + t for t in range(n)]}, index=pd.RangeIndex(origin, n + origin))
+                f.fit(yser(0, n), X=xpre if cfg["strategy"] != "dirrec" else None, fh=fharg)
             except REJECT:
                 pass
             f.set_params(window_length=w)
             stubs.reset(tag)
         else:
-            f = make_reduction(stubs.RecordingRegressor(tag=tag, frac=0.25), strategy=cfg["strategy"], window_length=w,
-                               scitype=scitype)
+            f = make_reduction(Reg(tag=tag, frac=0.25), strategy=cfg["strategy"], window_length=w,
+                               scitype=sci)
         f.fit(yser(0, n), X=xfr(0, n), fh=fharg)
         if upd:
             f.update(yser(n, n + upd), X=xfr(n, n + upd), update_params=False)
